@@ -41,7 +41,7 @@ TIMEOUT = {"quick": 1500, "thorough": 6 * 3600}
 
 
 def cases(tier, seed):
-    nf, nh = (8, 14) if tier == "quick" else (150, 360)
+    nf, nh = (8, 14) if tier == "quick" else (250, 600)
     out = [{"kind": "fresh", "seed": seed * 811 + i} for i in range(nf)]
     out += [{"kind": "history", "seed": seed * 1213 + i} for i in range(nh)]
     return out
